@@ -164,6 +164,10 @@ func (r *Run) run(pd *PropDef) int {
 		r.engineError("contracts: %v", err)
 		return 2
 	}
+	if len(r.DB.Dups) > 0 {
+		r.engineError("contracts: declared more than once (the later one would replace the earlier at call sites): %s", strings.Join(r.DB.Dups, ", "))
+		return 2
+	}
 	t0 := time.Now()
 	if len(pd.Patterns) > 0 {
 		r.L, err = Load(r.Repo, pd.Patterns, "verif")
